@@ -6,6 +6,7 @@ use crate::Args;
 pub mod graphdump;
 pub mod jobgen;
 pub mod linkmon;
+pub mod loopmon;
 pub mod srcmon;
 pub mod winmon_count;
 
@@ -14,6 +15,8 @@ pub fn dispatch(args: &Args, report: &mut Report) {
         "C01" | "C05" | "C07" | "C08" | "C09" | "C16" => jobgen::run(args, report),
         "C02" => linkmon::run_c02(args, report),
         "C03" => linkmon::run_c03(args, report),
+        "C10" => loopmon::run_c10(args, report),
+        "C11" => loopmon::run_c11(args, report),
         "C12" => winmon_count::run(args, report),
         "C15" => srcmon::run(args, report),
         "C19" => graphdump::run(args, report),
